@@ -74,7 +74,7 @@ package document
 // entry is a fresh byte array of the same length; the source map and its byte arrays are only read; entries of
 // the destination that are not overwritten stay.
 //@ func (*TemplateEngine).cloneAllDocumentParts
-//@ props C17, C10
+//@ props C17, C10, C18
 //@ ghost B int
 //@ requires source != nil && dest != nil && dest.parts != nil && above(dest.parts, B) && source.parts != dest.parts
 //@ modifies map:string:[]byte
@@ -110,9 +110,8 @@ package document
 // new object too. The code appends the source's pointer instead ("其他类型暂时直接复制引用"): the rendered
 // document shares such elements with the template's base document. Recorded as a known finding (C17).
 //@ func (*TemplateEngine).cloneDocument
-//@ props C17, C02
+//@ props C17, C02, C18
 //@ ghost B int = allocBound()
-//@ ignore-ensures deepcopy
 //@ requires te != nil && source != nil && source.Body != nil && elemsOK(source.Body.Elements) && sectRefsOK(source.Body.Elements) && mediaFresh(source) && source.nextImageID >= 0
 //@ modifies nothing
 //@ ensures docParts(result)
@@ -131,6 +130,20 @@ package document
 //@ ensures forall j int :: 0 <= j && j < len(result.Body.Elements) && isTable(result.Body.Elements[j]) ==> !isElem(result.Body.Elements[j].(*Table)) && above(result.Body.Elements[j].(*Table).Rows, old(allocBound())) && tagged(result.Body.Elements[j].(*Table).Rows, "TableRow")
 //@ ensures closedAbove(old(allocBound()))
 //@ ensures forall j int :: 0 <= j && j < len(source.Body.Elements) && !old(isKnownKind(source.Body.Elements[j])) ==> fresh(result.Body.Elements[j])
+// C18 (clone fidelity of the whole document). Element dispatch: a paragraph / table / section-properties element is replaced
+// by the result of ITS clone function, i.e. a deep copy (all fields of the Go type, Run.Drawing shared - known finding).
+//@ ensures forall j int :: 0 <= j && j < len(source.Body.Elements) && old(isPara(source.Body.Elements[j])) ==> deepcopy(result.Body.Elements[j].(*Paragraph), old(source.Body.Elements[j]).(*Paragraph))
+//@ ensures forall j int :: 0 <= j && j < len(source.Body.Elements) && old(isTable(source.Body.Elements[j])) ==> deepcopy(result.Body.Elements[j].(*Table), old(source.Body.Elements[j]).(*Table))
+//@ ensures forall j int :: 0 <= j && j < len(source.Body.Elements) && old(isSect(source.Body.Elements[j])) ==> deepcopy(result.Body.Elements[j].(*SectionProperties), old(source.Body.Elements[j]).(*SectionProperties))
+// Parts: every part of the source except word/document.xml (regenerated on save) is present in the clone with the same
+// bytes, held in a byte array of its own (fresh: post4 above) - nothing is shared, nothing is skipped.
+//@ ensures forall k string :: old(has(source.parts, k)) && k != "word/document.xml" ==> has(result.parts, k) && len(result.parts[k]) == old(len(source.parts[k]))
+//@ ensures forall k string, i int :: old(has(source.parts, k)) && k != "word/document.xml" && 0 <= i && i < old(len(source.parts[k])) ==> result.parts[k][i] == old(source.parts[k][i])
+// Relationship and content-type lists: same length, same entries in the same order (copies, post5/post6 above).
+//@ ensures source.documentRelationships != nil ==> len(result.documentRelationships.Relationships) == old(len(source.documentRelationships.Relationships)) && (forall i int :: 0 <= i && i < old(len(source.documentRelationships.Relationships)) ==> result.documentRelationships.Relationships[i] == old(source.documentRelationships.Relationships[i]))
+//@ ensures source.contentTypes != nil ==> len(result.contentTypes.Defaults) == old(len(source.contentTypes.Defaults)) && (forall i int :: 0 <= i && i < old(len(source.contentTypes.Defaults)) ==> result.contentTypes.Defaults[i] == old(source.contentTypes.Defaults[i]))
+//@ ensures source.contentTypes != nil ==> len(result.contentTypes.Overrides) == old(len(source.contentTypes.Overrides)) && (forall i int :: 0 <= i && i < old(len(source.contentTypes.Overrides)) ==> result.contentTypes.Overrides[i] == old(source.contentTypes.Overrides[i]))
+//@ ensures result.stylesGenerated == source.stylesGenerated
 //@ loop 1
 //@   invariant 0 <= #i && #i <= len(source.Body.Elements) && unchangedHeap()
 //@   invariant forall j int :: {source.Body.Elements[j]} 0 <= j && j < len(source.Body.Elements) ==> source.Body.Elements[j] == old(source.Body.Elements[j])
@@ -148,4 +161,8 @@ package document
 //@   invariant closedTables(old(allocBound()))
 // LAST invariant on purpose (its obligation class is the recorded known finding C17 "unknown element kinds are shared"):
 //@   invariant forall j int :: 0 <= j && j < #i && !old(isKnownKind(source.Body.Elements[j])) ==> fresh(doc.Body.Elements[j])
+// (C18; after the known-finding invariant so that its obligation class keeps its number)
+//@   invariant forall j int :: 0 <= j && j < #i && old(isPara(source.Body.Elements[j])) ==> deepcopy(doc.Body.Elements[j].(*Paragraph), old(source.Body.Elements[j]).(*Paragraph))
+//@   invariant forall j int :: 0 <= j && j < #i && old(isTable(source.Body.Elements[j])) ==> deepcopy(doc.Body.Elements[j].(*Table), old(source.Body.Elements[j]).(*Table))
+//@   invariant forall j int :: 0 <= j && j < #i && old(isSect(source.Body.Elements[j])) ==> deepcopy(doc.Body.Elements[j].(*SectionProperties), old(source.Body.Elements[j]).(*SectionProperties))
 //@   decreases len(source.Body.Elements) - #i
